@@ -1,9 +1,10 @@
 #!/usr/bin/env bash
-# Re-runs every archived seeded change against the check of its own property (quick tier).
+# Re-runs every archived seeded change against the checks recorded as detecting it (quick tier,
+# scratch worktree via mutants/run.sh; /repo is not touched).
 cd /verif
 for d in seeded/*/; do
   name=$(basename $d)
-  prop=$(python3 -c "import json;print(json.load(open('$d/meta.json'))['property'])")
+  prop=$(python3 -c "import json;m=json.load(open('$d/meta.json'));print(' '.join(m.get('detected_by') or [m['property']]))")
   if git -C /repo apply --check /verif/$d/patch.diff 2>/dev/null; then
     mutants/run.sh $d/patch.diff $prop 2>&1 | sed "s|^patch.diff|$name|" | cut -c1-200
   else
